@@ -79,6 +79,13 @@ mut('C16', 'namespace-nodes-unsorted', G, "for node in sorted(namespace.values()
 mut('C16', 'record-methods-unsorted', G, "            for method in sorted(record.methods):", "            for method in record.methods:")
 mut('C16', 'record-ctors-unsorted', G, "            for method in sorted(record.constructors):", "            for method in record.constructors:")
 mut('C16', 'record-static-unsorted', G, "            for method in sorted(record.static_methods):", "            for method in record.static_methods:")
+mut('C16', 'class-ctors-unsorted', G, "                for method in sorted(node.constructors):", "                for method in node.constructors:")
+mut('C16', 'class-methods-unsorted', G, "            for method in sorted(node.methods):", "            for method in node.methods:")
+mut('C16', 'class-vfuncs-unsorted', G, "            for vfunc in sorted(node.virtual_methods):", "            for vfunc in node.virtual_methods:")
+mut('C16', 'class-properties-unsorted', G, "            for prop in sorted(node.properties):", "            for prop in node.properties:",
+    note='property order then follows the runtime dump, which is an input: deterministic, and independent of hash seed and arrival order; must NOT be flagged', expect=0)
+mut('C16', 'class-interfaces-unsorted', G, "                for iface in sorted(node.interfaces):", "                for iface in node.interfaces:",
+    note='order then follows the runtime dump (an input); must NOT be flagged', expect=0)
 mut('C16', 'cached-dep-loses-packages', T, "        if not uninstalled:\n            for pkg in parser.get_namespace().exported_packages:", "        if not uninstalled and fresh:\n            for pkg in parser.get_namespace().exported_packages:",
     note='two-site mutant: packages of a dependency only registered when it was parsed afresh; they only feed the pkg-config call, never the output, so this is equivalent with respect to C16 and must NOT be flagged', expect=0)
 M[-1]['also'] = [(T, "        parser = None\n        if self._cachestore is not None:\n            parser = self._cachestore.load(filename)\n        if parser is None:", "        parser = None\n        fresh = False\n        if self._cachestore is not None:\n            parser = self._cachestore.load(filename)\n        if parser is None:\n            fresh = True")]
